@@ -1,4 +1,4 @@
-(* C16 driver: reads `IN CFG <id> keys=k,k env=K:hex,.. mach=pus,cores,maskcount,maskcores arg0=hex args=hex,hex`
+(* C16 driver: reads `IN CFG <id> keys=k,k env=K:hex,.. mach=pus,cores,maskcount,maskcores coremasks=hex;hex arg0=hex args=hex,hex`
    prints `OUT CFG <id> ...` from the extracted model (Model/Config.v: run). *)
 let ascii_of_char (c : char) : ascii =
   let n = Char.code c in
@@ -48,7 +48,8 @@ let () =
             | None -> (cs_of_string kv, cs_of_string "")) (split_on ',' (field rest "env")) in
         let mach = List.map int_of_string (split_on ',' (field rest "mach")) in
         let m = match mach with
-          | [a; b; c; d] -> { m_pus = n_of_int a; m_cores = n_of_int b; m_maskcount = n_of_int c; m_maskcores = n_of_int d }
+          | [a; b; c; d] -> { m_pus = n_of_int a; m_cores = n_of_int b; m_maskcount = n_of_int c; m_maskcores = n_of_int d;
+                              m_coremasks = List.map n_of_hex (split_on ';' (field rest "coremasks")) }
           | _ -> failwith "mach" in
         let arg0 = cs_of_string (unhex (field rest "arg0")) in
         let args = List.map (fun h -> cs_of_string (unhex h)) (split_on ',' (field rest "args")) in
